@@ -896,9 +896,21 @@ class DiskRefsContainer(RefsContainer):
             [bytes, bytes, bytes, bytes | None, int | None, int | None, bytes], None
         ]
         | None = None,
+        peel: Callable[[ObjectID], ObjectID | None] | None = None,
     ) -> None:
-        """Initialize DiskRefsContainer."""
+        """Initialize DiskRefsContainer.
+
+        Args:
+          path: Path of the (common) control directory
+          worktree_path: Path of the control directory of the work tree
+          logger: Optional reflog callback
+          peel: Optional callback returning the fully peeled id for an object
+            id (None if it cannot tell). Used to record the peeled value of
+            tags when refs are packed: the packed-refs file written here says
+            that refs without a peeled value do not point at a tag.
+        """
         super().__init__(logger=logger)
+        self._peel = peel
         # Convert path-like objects to strings, then to bytes for Git compatibility
         self.path = os.fsencode(os.fspath(path))
         if worktree_path is None:
@@ -1097,6 +1109,10 @@ class DiskRefsContainer(RefsContainer):
                         peeled_refs.pop(ref, None)
                     if target is not None:
                         packed_refs[ref] = target
+                        if self._peel is not None and ref not in peeled_refs:
+                            peeled = self._peel(target)
+                            if peeled is not None and peeled != target:
+                                peeled_refs[ref] = peeled
                     else:
                         packed_refs.pop(ref, None)
 
